@@ -348,7 +348,7 @@ struct decode_traits<T,
 
     static void reserve_storage(std::true_type, T& v, std::size_t new_cap)
     {
-        v.reserve(new_cap);
+        v.reserve(new_cap < 8192 ? new_cap : 8192); // a hint only: the length an input claims must not size an allocation
     }
 
     static void reserve_storage(std::false_type, T&, std::size_t)
@@ -413,7 +413,7 @@ struct decode_traits<T,
 
     static void reserve_storage(std::true_type, T& v, std::size_t new_cap)
     {
-        v.reserve(new_cap);
+        v.reserve(new_cap < 8192 ? new_cap : 8192); // a hint only: the length an input claims must not size an allocation
     }
 
     static void reserve_storage(std::false_type, T&, std::size_t)
@@ -471,7 +471,7 @@ struct decode_traits<T,
 
     static void reserve_storage(std::true_type, T& v, std::size_t new_cap)
     {
-        v.reserve(new_cap);
+        v.reserve(new_cap < 8192 ? new_cap : 8192); // a hint only: the length an input claims must not size an allocation
     }
 
     static void reserve_storage(std::false_type, T&, std::size_t)
@@ -540,7 +540,7 @@ struct decode_traits<T,
 
     static void reserve_storage(std::true_type, T& v, std::size_t new_cap)
     {
-        v.reserve(new_cap);
+        v.reserve(new_cap < 8192 ? new_cap : 8192); // a hint only: the length an input claims must not size an allocation
     }
 
     static void reserve_storage(std::false_type, T&, std::size_t)
@@ -659,7 +659,7 @@ struct decode_traits<T,
 
     static void reserve_storage(std::true_type, T& v, std::size_t new_cap)
     {
-        v.reserve(new_cap);
+        v.reserve(new_cap < 8192 ? new_cap : 8192); // a hint only: the length an input claims must not size an allocation
     }
 
     static void reserve_storage(std::false_type, T&, std::size_t)
